@@ -117,16 +117,22 @@ fn gen_case(c: &mut Chooser) -> Case {
         1 => Some("generated/r/resolvers.d.ts".to_string()),
         _ => None,
     };
-    let mut y = String::from("schema: ./schema/*.graphql\ndocuments:\n  - ./src/**/*.graphql\nextensions:\n  nitrogql:\n    generate:\n");
-    y.push_str(&format!("      mode: {}\n      schemaOutput: ./{schema_out}\n", MODES[mode].0));
+    // the configuration file in the project root, or in a subdirectory with `..` in every pattern and output path
+    let sub = c.flag("config.in-subdirectory");
+    let up = if sub { ".." } else { "." };
+    let mut y = format!("schema: {up}/schema/*.graphql\ndocuments:\n  - {up}/src/**/*.graphql\nextensions:\n  nitrogql:\n    generate:\n");
+    y.push_str(&format!("      mode: {}\n      schemaOutput: {up}/{schema_out}\n", MODES[mode].0));
     if let Some(r) = &resolvers_out {
-        y.push_str(&format!("      resolversOutput: ./{r}\n"));
+        y.push_str(&format!("      resolversOutput: {up}/{r}\n"));
+    }
+    if sub {
+        tags.push("config-in-subdirectory".into());
     }
     if EXTS[ext].1 {
         y.push_str("      emitSchemaRuntime: true\n");
     }
     y.push_str("      type:\n        scalarTypes:\n          Date: string\n          Url: string\n          Json: unknown\n          Big: string\n");
-    files.insert("graphql.config.yaml".into(), y.clone());
+    files.insert(if sub { "cfg/graphql.config.yaml".to_string() } else { "graphql.config.yaml".to_string() }, y.clone());
     Case { files, yaml: y, schema_out, resolvers_out, mode, tags }
 }
 
@@ -359,7 +365,8 @@ fn check_case(rep: &Reporter, case: &Case, c: &Chooser, ctr: &Ctr) {
     let mut p = Project::default();
     p.files = case.files.clone();
     cli::materialize(&dir, &p);
-    let args: Vec<String> = ["--config-file", "graphql.config.yaml", "--output-format", "json", "generate"].iter().map(|s| s.to_string()).collect();
+    let cfg_path = if case.files.contains_key("cfg/graphql.config.yaml") { "cfg/graphql.config.yaml" } else { "graphql.config.yaml" };
+    let args: Vec<String> = ["--config-file", cfg_path, "--output-format", "json", "generate"].iter().map(|s| s.to_string()).collect();
     let r = cli::run(&dir, &args, &[], Duration::from_secs(30));
     ctr.runs.fetch_add(1, Ordering::Relaxed);
     let case_json = |extra: J| json!({"layer": "e2e", "tags": case.tags, "config": case.yaml, "picks": c.picks(), "deviations": c.deviation_labels(), "files": case.files, "detail": extra});
